@@ -39,7 +39,9 @@ Record state := mkState {
 (* ---- bytes and words ---------------------------------------------------------------------- *)
 
 Definition be_word (bs : list Z) : Z := fold_left (fun acc b => acc * 256 + b) bs 0.
-Definition word_bytes (v : Z) : list Z := map (fun i => (v / 2 ^ (8 * (31 - Z.of_nat i))) mod 256) (seq 0 32).
+(* uint256.WriteToSlice: byte i (big-endian) = bits 8*(31-i) .. 8*(31-i)+7; shift and mask are linear in the VM,
+   division by a power is not *)
+Definition word_bytes (v : Z) : list Z := map (fun i => Z.land (Z.shiftr v (8 * (31 - Z.of_nat i))) 255) (seq 0 32).
 Definition zlen {A} (l : list A) : Z := Z.of_nat (length l).
 Definition slice (l : list Z) (a n : Z) : list Z := firstn (Z.to_nat n) (skipn (Z.to_nat a) l).
 Definition zeros (n : Z) : list Z := repeat 0 (Z.to_nat n).
@@ -91,8 +93,9 @@ Definition memory_gas_cost (mag : Z) (memlen lastfee newsize : Z) : option (Z * 
     else Some (0, lastfee).
 
 (* memoryCopierGas(stackpos): memory fee (already magnified by memoryGasCost) + 3 per copied word,
-   SafeMul/SafeAdd, then the magnification once more as a plain (wrapping) uint64 multiplication;
-   [mag] = 1 leaves the sum unchanged *)
+   SafeMul/SafeAdd, then the magnification once more through magnifyGas = SafeMul (repo commit
+   a88a71e; before it the product wrapped); with Proposal026 off the code does not multiply at
+   all, which [mag] = 1 reproduces *)
 Definition copier_gas (mag : Z) (memlen lastfee newsize words_operand : Z) : option (Z * Z) :=
   match memory_gas_cost mag memlen lastfee newsize with
   | None => None
@@ -101,7 +104,9 @@ Definition copier_gas (mag : Z) (memlen lastfee newsize words_operand : Z) : opt
     else let '(w, o1) := safe_mul (to_word_size words_operand) 3 in
          if o1 then None
          else let '(g2, o2) := safe_add g w in
-              if o2 then None else Some ((g2 * mag) mod U64, last')
+              if o2 then None
+              else let '(g3, o3) := safe_mul g2 mag in
+                   if o3 then None else Some (g3, last')
   end.
 
 Definition bit_len (x : Z) : Z := if x =? 0 then 0 else Z.log2 x + 1.
@@ -144,7 +149,8 @@ Definition decode (b : Z) : kind :=
 Definition znth {A} (l : list A) (i : Z) (d : A) : A := nth (Z.to_nat i) l d.
 
 (* stack helpers: head of the list is the top of the stack *)
-Definition wpush (v : Z) (s : list Z) : list Z := (v mod W) :: s.
+(* a slot holds 256 bits: v mod 2^256, computed as a mask (Z.land_ones) *)
+Definition wpush (v : Z) (s : list Z) : list Z := Z.land v (W - 1) :: s.
 Fixpoint set_nth (l : list Z) (n : nat) (v : Z) : list Z :=
   match l, n with
   | [], _ => []
